@@ -212,7 +212,7 @@ def parked_published_rule(F, R):
                     "between the PausedAtSafepoint and the Suspended arm; a thread parked unpublished is waited for forever by "
                     "the next global definition, assignment or collection on another thread")
     fn = F.one(r"^steel::steel_vm::vm::\{impl VmCore\}::safepoint_or_interrupt$")
-    park_rx = r"\{impl VmCore\}::park_thread_while_paused$"
+    park_rx = "^(" + "|".join(re.escape(n_) for n_ in sorted(lib.park_helpers(F)) if n_ != fn.name) + ")$"
     # the poll itself and the VmCore helpers it parks through (two calls deep)
     hosts = [fn]
     seen = {fn.name}
@@ -246,7 +246,7 @@ def parked_published_rule(F, R):
         if allok:
             published_hosts.add(g.name)
     if nparks == 0:
-        raise CheckError("anchor lost: safepoint_or_interrupt no longer parks through park_thread_while_paused")
+        raise CheckError("anchor lost: safepoint_or_interrupt no longer parks through a helper that waits by parking in a loop")
     # both pausing states park (sibling agreement between the arms)
     tsw = lib.enum_switches(fn, "ThreadState")
     if not tsw:
